@@ -59,12 +59,11 @@ func (gj *groupJob[T]) Wait() {
 }
 
 func (gj *groupJob[T]) Close() error {
-	if err := gj.isCloseable(); err != nil {
+	if err := gj.tryClose(); err != nil {
 		return err
 	}
 
 	gj.ack()
-	gj.changeStatus(closed)
 	gj.wgc.Done()
 
 	return nil
@@ -96,6 +95,11 @@ func newResultGroupJob[T, R any](bufferSize int) *resultGroupJob[T, R] {
 		wgc: helpers.NewWgCounter(bufferSize),
 	}
 
+	// nothing will ever finish in an empty batch, so its stream ends here
+	if bufferSize == 0 {
+		gj.Response.Close()
+	}
+
 	return gj
 }
 
@@ -125,15 +129,14 @@ func (gj *resultGroupJob[T, R]) Results() <-chan Result[R] {
 }
 
 func (gj *resultGroupJob[T, R]) Close() error {
-	if err := gj.isCloseable(); err != nil {
+	if err := gj.tryClose(); err != nil {
 		return err
 	}
 
 	gj.ack()
-	gj.changeStatus(closed)
-	gj.wgc.Done()
 
-	if gj.wgc.Count() == 0 {
+	// the item that brings the counter to zero, and only that one, closes the stream
+	if gj.wgc.Done() {
 		gj.Response.Close()
 	}
 
@@ -159,7 +162,7 @@ type EnqueuedErrGroupJob interface {
 }
 
 func newErrorGroupJob[T any](bufferSize int) *errorGroupJob[T] {
-	return &errorGroupJob[T]{
+	gj := &errorGroupJob[T]{
 		errorJob: errorJob[T]{
 			job: job[T]{
 				wg: sync.WaitGroup{},
@@ -168,6 +171,13 @@ func newErrorGroupJob[T any](bufferSize int) *errorGroupJob[T] {
 		},
 		wgc: helpers.NewWgCounter(bufferSize),
 	}
+
+	// nothing will ever finish in an empty batch, so its stream ends here
+	if bufferSize == 0 {
+		gj.Response.Close()
+	}
+
+	return gj
 }
 
 func (gj *errorGroupJob[T]) NumPending() int {
@@ -196,15 +206,14 @@ func (gj *errorGroupJob[T]) Errs() <-chan error {
 }
 
 func (gj *errorGroupJob[T]) Close() error {
-	if err := gj.isCloseable(); err != nil {
+	if err := gj.tryClose(); err != nil {
 		return err
 	}
 
 	gj.ack()
-	gj.changeStatus(closed)
-	gj.wgc.Done()
 
-	if gj.wgc.Count() == 0 {
+	// the item that brings the counter to zero, and only that one, closes the stream
+	if gj.wgc.Done() {
 		gj.Response.Close()
 	}
 
